@@ -66,6 +66,8 @@ func gen(a Args, out *Out) {
 		{8, connsim.FreeTransportBacklog},
 		{8, connsim.FreeServerGC},
 		{24, connsim.FreeEnv},
+		{2, connsim.FreePeerPause},
+		{1, connsim.FreePeerPauseDefault},
 	}
 	var jobs []job
 	var ins []Sx
